@@ -1206,8 +1206,19 @@ class C14(Prop):
                      [b"w", b"zone", b"example"], [b"v", b"example"]]
             edge.append("R %d 16 E Dns %s" % (max(reps, 64), G.canon(name_seq_msg(names, spacer))))
         many = ["R %d 16 E Dns %s" % (max(reps // 2, 16), G.canon(many_names_msg(k))) for k in (300, 400)]
+        # names that differ only in the case of a NON-ASCII letter (or are equal only under Unicode folding): if equality
+        # and hash of the table key ever disagree on them, a lookup succeeds or fails depending on the per-instance seed
+        pairs = [("\u00e9", "\u00c9"), ("\u00fc", "\u00dc"), ("\u00f6", "\u00d6"), ("\u00e4", "\u00c4"), ("\u00f1", "\u00d1"),
+                 ("\u03c3", "\u03a3"), ("\u0436", "\u0416"), ("k", "\u212a"), ("\u00df", "\u1e9e"), ("i\u0307", "\u0130"),
+                 ("\u00e0", "\u00c0"), ("\u00ff", "\u0178")]
+        names = []
+        for lo, up in pairs:
+            for t in ([b"example", b"org"], [b"b", b"example", b"org"]):
+                names += [[lo.encode()] + t, [b"mail", up.encode()] + t, [up.encode()] + t, [b"www", lo.encode()] + t]
+        fold = ["R %d %d E Dns %s" % (max(reps * 8, 256), th, G.canon(name_seq_msg(names))) for th in (1, 16)]
         return [("encode-repeated", enc), ("encode-name-heavy-16-threads", heavy), ("decode-repeated", dec),
-                ("encode-straddling-0x3FFF-16-threads", edge), ("encode-hundreds-of-names-16-threads", many)]
+                ("encode-straddling-0x3FFF-16-threads", edge), ("encode-hundreds-of-names-16-threads", many),
+                ("encode-names-differing-in-non-ascii-case", fold)]
 
     def view(self, case, line):
         # determinism is the property: compare how many distinct results there were and whether the input
@@ -1335,6 +1346,14 @@ class C08(Prop):
             strings.append("E Dns " + G.canon(msg(('RR', 20, ex, 1, 0, ('G', [b"12", ('O', b"a" * ln)])))))
             strings.append("E Dns " + G.canon(msg(('RR', 64, ex, 1, 0, ('SVCB', 1, ('N', []), [('ALPN', b"h2", s_)])))))
             strings.append("E RR " + G.canon(('RR', 13, ex, 1, 0, ('G', [s_, s_]))))
+        # the limits count octets, not characters: strings of 2- and 4-octet characters around 255 octets
+        for ch in ("\u00e9".encode(), "\U0001f600".encode()):
+            for ln in (252, 254, 255, 256, 257, 258, 260, 300, 512):
+                s_ = ch * (ln // len(ch)) + b"a" * (ln % len(ch))
+                strings.append("E Dns " + G.canon(msg(('RR', 13, ex, 1, 0, ('G', [s_, b"x"])))))
+                strings.append("E Dns " + G.canon(msg(('RR', 16, ex, 1, 0, ('G', [('L', [b"ok", s_])])))))
+                strings.append("E Dns " + G.canon(msg(('RR', 64, ex, 1, 0, ('SVCB', 1, ('N', []), [('ALPN', b"h2", s_)])))))
+                strings.append("E Dns " + G.canon(msg(('RR', 256, ex, 1, 0, ('G', [1, 2, s_])))))
         big = []
         for ln in (65520, 65534, 65535, 65536, 65537, 70000):
             big.append("E RR " + G.canon(('RR', 10, ('N', []), 1, 0, ('G', [bytes(ln)]))))
